@@ -607,6 +607,24 @@ func checkInvalid(c invalidCase) (o evid.Outcome) {
 	if err == nil {
 		return evid.Fail("%s returns %d fragments and no error; expected an error for the invalid fragment size (%s)", what, len(out), kind)
 	}
+	// the same block as the head of a larger buffer (bytes.Buffer, a file read buffer): the bytes behind the block
+	// are not part of it, the size is as invalid as before
+	fs := c.FragSize
+	if fs < 0 {
+		fs = -fs
+	}
+	if fs < 0 || fs > 4096 {
+		fs = 64
+	}
+	big := make([]byte, c.DataLen+2*fs+16)
+	for i := range big {
+		big[i] = byte(i + 1)
+	}
+	what = fmt.Sprintf("Encode(the first %d bytes of a %d-byte buffer, fragmentSize=%d, redundancy=%d)", c.DataLen, len(big), c.FragSize, c.Redundancy)
+	out, err = fragmentation.Encode(big[:c.DataLen], c.FragSize, c.Redundancy)
+	if err == nil {
+		return evid.Fail("%s returns %d fragments and no error; expected an error for the invalid fragment size (%s)", what, len(out), kind)
+	}
 	return evid.Outcome{NonTrivial: true, Class: kind}
 }
 
@@ -642,7 +660,7 @@ func TestProp(t *testing.T) {
 
 	lens := r.N(40, 200)
 	reds := []int{3, 1, 0}
-	rule := "Encode must return an error and must not panic. Data = counting bytes. Every case is non-trivial."
+	rule := "Encode must return an error and must not panic, for the block given as an exactly sized slice and as the head of a larger buffer. Data = counting bytes. Every case is non-trivial."
 	evid.Exhaustive(r, t, "invalid-size-zero",
 		fmt.Sprintf("fragment size 0 x data length 0..%d x redundancy {3,1,0}. %s", lens, rule), false,
 		func(emit func(invalidCase)) {
